@@ -16,6 +16,7 @@
 
 #include <pistache/common.h>
 #include <pistache/os.h>
+#include <pistache/verif_sim.h>
 
 namespace Pistache
 {
@@ -220,12 +221,15 @@ namespace Pistache
             Entry* entry = new Entry(std::forward<U>(u));
             // @Note: we're using SC atomics here (exchange will issue a full fence),
             // but I don't think we should bother relaxing them for now
+            PISTACHE_SIM_POINT("queue.push.exchange", this);
             auto* prev = head.exchange(entry);
+            PISTACHE_SIM_POINT("queue.push.link", this);
             prev->next = entry;
         }
 
         virtual Entry* pop()
         {
+            PISTACHE_SIM_POINT("queue.pop.load", this);
             auto* res  = tail;
             auto* next = res->next.load(std::memory_order_acquire);
             if (next)
